@@ -12,6 +12,7 @@ import TonVerif.Proofs.Typed
 namespace TonVerif.Proofs.SrcTyped
 open TonVerif TonVerif.Model TonVerif.Proofs.SrcBuilder TonVerif.Proofs.SrcSlice
 variable {R : Type} {α β : Type}
+set_option linter.unusedSimpArgs false
 
 /-- the regenerated `store_*` method of a typed value -/
 def srcStore? : TVal R → Option (Builder R → Builder R × Option Unit)
@@ -94,8 +95,8 @@ def srcLoad? : Kind → Option (Py.SliceSt R → Py.SliceSt R × Option (TVal R)
   | .ref => some fun s => mapR TVal.ref (Generated.SliceOps.load_ref s)
   | .maybeRef => some fun s => mapR TVal.maybeRef (Generated.SliceOps.load_maybe_ref s)
   | .string n => some fun s => mapR TVal.string (Generated.SliceOps.load_string n s)
-  | .dict => none
-  | .addr => none
+  | .dict => some fun s => mapR TVal.dict (Generated.SliceOps.load_dict 0 () () s)
+  | .addr => some fun s => mapR (fun a => TVal.addr (addrM a)) (Generated.SliceOps.load_address s)
 
 /-- the regenerated `preload_*` method of a kind -/
 def srcPreload? : Kind → Option (Py.SliceSt R → Py.SliceSt R × Option (TVal R))
@@ -110,8 +111,8 @@ def srcPreload? : Kind → Option (Py.SliceSt R → Py.SliceSt R × Option (TVal
   | .maybeRef => some fun s => mapR TVal.maybeRef (Generated.SliceOps.preload_maybe_ref s)
   | .ref => some fun s => mapR TVal.ref (Generated.SliceOps.preload_ref 0 s)
   | .string n => some fun s => mapR TVal.string (Generated.SliceOps.preload_string n s)
-  | .dict => none
-  | .addr => none
+  | .dict => some fun s => mapR TVal.dict (Generated.SliceOps.preload_dict 0 () () s)
+  | .addr => some fun s => mapR (fun a => TVal.addr (addrM a)) (Generated.SliceOps.preload_address s)
 
 theorem viewR_mapR (f : α → β) (g : β → TVal R) (r : Py.SliceSt R × Option α) (m : SOp R β) (s0 : Slice R)
     (h : viewR f r = m s0) : viewR id (mapR (fun a => g (f a)) r) = m.map g s0 := by
@@ -131,6 +132,8 @@ theorem srcLoad_eq (k : Kind) (g : Py.SliceSt R → Py.SliceSt R × Option (TVal
   · exact viewR_mapR id TVal.string _ _ _ (src_load_string_eq _ s)
   · exact viewR_mapR id TVal.ref _ _ _ (src_load_ref_eq s)
   · exact viewR_mapR id TVal.maybeRef _ _ _ (src_load_maybe_ref_eq s)
+  · exact viewR_mapR id TVal.dict _ _ _ (src_load_dict_eq _ _ _ s)
+  · exact viewR_mapR addrM TVal.addr _ _ _ (src_load_address_eq s)
 
 theorem srcPreload_eq (k : Kind) (g : Py.SliceSt R → Py.SliceSt R × Option (TVal R)) (h : srcPreload? k = some g) (s : Py.SliceSt R) :
     viewR id (g s) = k.preload (view s) := by
@@ -146,5 +149,7 @@ theorem srcPreload_eq (k : Kind) (g : Py.SliceSt R → Py.SliceSt R × Option (T
   · exact viewR_mapR id TVal.string _ _ _ (src_preload_string_eq _ s)
   · exact viewR_mapR id TVal.ref _ _ _ (src_preload_ref_eq s)
   · exact viewR_mapR id TVal.maybeRef _ _ _ (src_preload_maybe_ref_eq s)
+  · exact viewR_mapR id TVal.dict _ _ _ (src_preload_dict_eq _ _ _ s)
+  · exact viewR_mapR addrM TVal.addr _ _ _ (src_preload_address_eq s)
 
 end TonVerif.Proofs.SrcTyped
